@@ -47,7 +47,7 @@ def run_case(case, strict=False):  # pylint: disable=unused-argument
     if cut:
         cl.add("cycle_cut_by_boundary")
     cl.add("firmware_retraction" if fw else "e_only_retraction")
-    return findings, {"nontrivial": cycles >= 2 and cut, "classes": sorted(cl), "truncated": tr.truncated,
+    return findings, {"nontrivial": cycles >= 2 and cut, "classes": sorted(cl), "truncated": tr.truncated, "excluded_known": case.get("meta", {}).get("excluded_known", 0),
                       "sample": {"regions": case["regions"], "config": case["config"],
                                  "prog": [i[1] if i[0] == "g" else i for i in case["prog"]]}}
 
